@@ -93,6 +93,13 @@ CHECKS = {
             'ref': 'DESIGN.md 2/C17', 'note': NOTE + ' All variables are finite selectors: exhaustive within the bound; the solver '
                     'contributes path coverage, not arithmetic.',
             'technique': SYM + ' (selector-driven exhaustive histories) against a reference property store'},
+    'C15': {'text': 'Interface definitions (0-3/6 methods, signals, properties; signatures by solver-chosen index from a pool '
+                    'covering the grammar; access modes; replace / known-locally flags) go through the real XML generator and the '
+                    'real XML parser and are compared member by member.',
+            'ref': 'DESIGN.md 2/C15', 'note': NOTE + ' expat is C code: strings are concrete per path, all variables are finite '
+                    'selectors; the solver contributes exhaustive coverage of the combinations in the bound (the per-argument split is '
+                    'decided symbolically in C19).',
+            'technique': SYM + ' (selector-driven) of generate-then-parse'},
 }
 _TODO = 'check not built yet in this revision (planned, see DESIGN.md section 2)'
 NOT_APPLICABLE = {('C%02d' % i): _TODO for i in range(1, 21)}
